@@ -34,7 +34,7 @@ RULE = (
     "a seed corpus of valid inputs, -runs budget, -seed derived from VERIF_SEED) with this same oracle inside the target: input = class index + payload kind + payload octets (FuzzedDataProvider), decode() and consumer() on every execution; each "
     "execution counts as one evaluation, it is non-trivial by the same rule (payload of the type's own kind and length, measured in the target), distinct by input hash"
 )
-FUZZ_RUNS = 2_500_000  # executions per campaign (thorough tier)
+FUZZ_RUNS = 2_000_000  # executions per campaign (thorough tier)
 ASSUMPTIONS = [
     "payload octets are 0..255 and DPTBinary values 0..63 (what a parsed group telegram can carry)",
     "allowed failures: xknx.exceptions.CouldNotParseTelegram and ConversionError only",
